@@ -2,39 +2,71 @@
 (* Trace validation for DvbDemux with the real layout constants.  harness/drv_dvb.c feeds a byte stream
    to the real demultiplexer in the logged chunks (callback interface: "feed", coroutine: "cor") and
    logs after every call the frames handed out and the wrap-around scalars of the context.  The
-   specification replays the same chunking on the same bytes and must reproduce both, call by call.
-   "end" lines carry the frames the intact tail of the stream was made from: Recovery.               *)
+   specification replays the same chunking on the same bytes and must reproduce both, call by call
+   (TFeed / TCor block otherwise: the log is rejected at that line).
+
+   The receiver policy `pol` (what happens to the frame in progress at damage, see DvbDemux) is chosen
+   once from Policies and must explain the whole log.
+
+   "end" lines close a run and state the two clauses of the property on what the real code delivered:
+     - PartitionInvariance on recorded runs: every run over the same stream delivers the frames of the
+       first run (coroutine runs: their CorView),
+     - Recovery: `sent` are the frames the intact packets behind the damage were made from, without the
+       first and the last one; they have to be the last frames delivered.
+   Both are reported (TV-PARTITION / TV-RECOVERY with the log line) without ending the validation.   *)
 EXTENDS DvbDemux, Json, IOUtils
 
+CONSTANTS Policies
+
 Log == ndJsonDeserialize(IOEnv.TRACEFILE)
-VARIABLES l, sl, maxl, acc, s
-tvars == <<l, sl, maxl, acc, s>>
+VARIABLES l, sl, maxl, acc, s, pol, first
+tvars == <<l, sl, maxl, acc, s, pol, first>>
 Ev == Log[l]
 X == Log[sl].s
 
 Scal(t) == IF t.ts THEN ScalTs(t) ELSE ScalPes(t)
+NoRun == [set |-> FALSE, fr |-> <<>>]
 
-TStream == Ev.a = "stream" /\ sl' = l /\ UNCHANGED <<maxl, acc, s>>
+TStream == Ev.a = "stream" /\ sl' = l /\ first' = NoRun /\ UNCHANGED <<maxl, acc, s>>
 TOpen == /\ Ev.a = "open" /\ Ev.ok
-         /\ s' = S0(Ev.ts, Ev.cb, Ev.pid) /\ maxl' = Ev.maxl /\ acc' = <<>> /\ UNCHANGED sl
+         /\ s' = S0(Ev.ts, Ev.cb, Ev.pid, pol) /\ maxl' = Ev.maxl /\ acc' = <<>> /\ UNCHANGED <<sl, first>>
 TZero == /\ Ev.a = "zero"
-         /\ s' = S0(s.ts, s.d.cb, s.pid) /\ acc' = <<>> /\ UNCHANGED <<sl, maxl>>
+         /\ s' = S0(s.ts, s.d.cb, s.pid, pol) /\ acc' = <<>> /\ UNCHANGED <<sl, maxl, first>>
 TFeed == /\ Ev.a = "feed" /\ Ev.ok
          /\ LET t == Feed(X, [s EXCEPT !.d.out = <<>>], Ev.n) IN
             /\ t.d.out = Ev.d /\ Scal(t) = Ev.w /\ ~t.bad /\ t.rd = t.ce
             /\ s' = t /\ acc' = acc \o t.d.out
-         /\ UNCHANGED <<sl, maxl>>
+         /\ UNCHANGED <<sl, maxl, first>>
 TCor == /\ Ev.a = "cor"
         /\ LET t == Cor(X, [s EXCEPT !.d.out = <<>>], Ev.n, maxl) IN
            /\ t.d.out = Ev.d /\ Scal(t) = Ev.w /\ ~t.bad /\ Ev.used = t.rd - s.rd
            /\ s' = t /\ acc' = acc \o t.d.out
-        /\ UNCHANGED <<sl, maxl>>
+        /\ UNCHANGED <<sl, maxl, first>>
+
 NormF(fr) == [i \in 1..Len(fr) |-> [pts |-> <<fr[i].pts[1] % 8, fr[i].pts[2]>>,
                                       lines |-> [j \in 1..Len(fr[i].lines) |-> NormLine(fr[i].lines[j])]]]
-TEnd == /\ Ev.a = "end" /\ IsSuffix(NormF(Ev.sent), NormF(acc)) /\ UNCHANGED <<sl, maxl, acc, s>>
+RECURSIVE Common(_, _)           \* number of equal trailing elements
+Common(a, b) == IF a = <<>> \/ b = <<>> \/ a[Len(a)] # b[Len(b)] THEN 0
+                ELSE 1 + Common(SubSeq(a, 1, Len(a) - 1), SubSeq(b, 1, Len(b) - 1))
+(* how Recovery failed: "merge" - the frame delivered in place of the first missing one ends with the
+   lines of that frame, behind lines of an earlier frame; "lost" - anything else *)
+Failure(sent, got) ==
+  LET k == Common(sent, got) IN
+  IF k < Len(got) /\ k < Len(sent)
+     /\ LET f == sent[Len(sent) - k]  g == got[Len(got) - k] IN
+        Len(g.lines) > Len(f.lines) /\ IsSuffix(f.lines, g.lines)
+  THEN "merge" ELSE "lost"
+View(fr) == IF s.d.cb THEN fr ELSE CorView(fr, maxl)
+\* (IF, not a disjunction: TLC enumerates both disjuncts of an action)
+TEnd == /\ Ev.a = "end"
+        /\ IF Ev.rec /\ ~IsSuffix(NormF(Ev.sent), NormF(acc))
+           THEN PrintT(<<"TV-RECOVERY", l, Failure(NormF(Ev.sent), NormF(acc)), pol>>) ELSE TRUE
+        /\ IF first.set /\ Ev.cmp /\ acc # View(first.fr) THEN PrintT(<<"TV-PARTITION", l>>) ELSE TRUE
+        /\ first' = IF ~first.set /\ s.d.cb /\ Ev.cmp THEN [set |-> TRUE, fr |-> acc] ELSE first
+        /\ UNCHANGED <<sl, maxl, acc, s>>
 
-TNext == l <= Len(Log) /\ l' = l + 1 /\ (TStream \/ TOpen \/ TZero \/ TFeed \/ TCor \/ TEnd)
-TInit == l = 1 /\ sl = 1 /\ maxl = 64 /\ acc = <<>> /\ s = S0(FALSE, TRUE, 0)
+TNext == l <= Len(Log) /\ l' = l + 1 /\ UNCHANGED pol /\ (TStream \/ TOpen \/ TZero \/ TFeed \/ TCor \/ TEnd)
+TInit == l = 1 /\ sl = 1 /\ maxl = 64 /\ acc = <<>> /\ pol \in Policies /\ s = S0(FALSE, TRUE, 0, pol) /\ first = NoRun
 TSpec == TInit /\ [][TNext]_tvars
 
 TraceAccepted == LET n == TLCGet("stats").diameter - 1 IN
